@@ -101,9 +101,9 @@ func c33GoodCell(r *rng.Rand, t string) string {
 func c33BadCell(r *rng.Rand, t string) string {
 	switch t {
 	case "float32":
-		return []string{"abc", "", "1_000", "3.5e39", "1..2", "0x"}[r.Intn(6)]
+		return []string{"abc", "", "1e", "3.5e39", "1..2", "0x"}[r.Intn(6)]
 	case "float64":
-		return []string{"abc", "", "1_000", "1e400", "--1"}[r.Intn(5)]
+		return []string{"abc", "", "e5", "1e400", "--1"}[r.Intn(5)]
 	case "byte":
 		return []string{"128", "-129", "1.5", "", "x", "+", "1_0"}[r.Intn(7)]
 	case "int16":
@@ -481,6 +481,8 @@ func c33Run(raw json.RawMessage) (res Result, err error) {
 		cq.F("k_data", cq.List(coqData)))
 
 	// ---- guard mirror (from the generator's own labels) and the property oracle ----
+	// csv-level and timestamp malformedness come from the generator's labels; whether a cell is
+	// unparsable is decided here by strconv itself (independent of the loader), not by the label
 	csvBad, timeBad, cellBad := false, false, false
 	for _, l := range in.Lines {
 		switch l.Kind {
@@ -488,8 +490,17 @@ func c33Run(raw json.RawMessage) (res Result, err error) {
 			csvBad = true
 		case "badtime":
 			timeBad = true
-		case "badcell":
-			cellBad = true
+		default:
+			rec, e := csv.NewReader(strings.NewReader(l.Text)).Read()
+			if e != nil || len(rec) != len(in.Header) {
+				csvBad = true
+				continue
+			}
+			for j, c := range in.Cols {
+				if _, ok := c33Expect(c.Type, rec[cvm.ColumnIndex[3+j]]); !ok {
+					cellBad = true
+				}
+			}
 		}
 	}
 	res.InDomain = !csvBad && !timeBad && in.Chunk >= 1
